@@ -423,6 +423,9 @@ class ServerRunner(BaseRunner[BaseRequest]):
         pass
 
     async def _make_server(self) -> Server[BaseRequest]:
+        # The same server object serves again: the shutdown of its previous
+        # run (pre_shutdown() refusing new connections) is over.
+        self._web_server._closing = False
         return self._web_server
 
     async def _cleanup_server(self) -> None:
